@@ -122,6 +122,24 @@ func diffEvents(got, want map[int][]string) string {
 	return ""
 }
 
+// splitProbes separates the events of probe constructs from the others.
+func splitProbes(ev map[int][]string) (probes, rest map[int][]string) {
+	probes, rest = map[int][]string{}, map[int][]string{}
+	for tag, l := range ev {
+		for _, s := range l {
+			if strings.HasPrefix(s, "d-cap ") || strings.HasPrefix(s, "probe-alias ") {
+				probes[tag] = append(probes[tag], s)
+			} else {
+				rest[tag] = append(rest[tag], s)
+			}
+		}
+		if _, ok := rest[tag]; !ok {
+			rest[tag] = nil
+		}
+	}
+	return probes, rest
+}
+
 func tail5(s []string, i int) []string {
 	lo := i - 3
 	if lo < 0 {
@@ -344,8 +362,15 @@ func RunC06(t *testing.T, tape *Tape) *Outcome {
 				}
 			}
 		}
-		if d := diffEvents(got, want); d != "" {
-			o.addV("C06", "events", "event-mismatch "+diffKind(got, want), "%s: %s", desc, d)
+		// probe events (constructs with a listed known finding) are compared on
+		// their own, so that a probe mismatch does not hide anything else
+		gotP, gotM := splitProbes(got)
+		wantP, wantM := splitProbes(want)
+		if d := diffEvents(gotP, wantP); d != "" {
+			o.addV("C06", "events", "event-mismatch "+diffKind(gotP, wantP), "%s: %s", desc, d)
+		}
+		if d := diffEvents(gotM, wantM); d != "" {
+			o.addV("C06", "events", "event-mismatch "+diffKind(gotM, wantM), "%s: %s", desc, d)
 			break
 		}
 		if p.entry >= 2 {
@@ -375,7 +400,7 @@ func RunC06(t *testing.T, tape *Tape) *Outcome {
 				}
 			}
 		}
-		if len(o.Violations) > 0 {
+		if hasNonProbe(o) {
 			break
 		}
 	}
@@ -385,6 +410,15 @@ func RunC06(t *testing.T, tape *Tape) *Outcome {
 	o.NonTrivial = faults > 0
 	o.N = int64(nplans)
 	return o
+}
+
+func hasNonProbe(o *Outcome) bool {
+	for _, v := range o.Violations {
+		if !strings.Contains(v.Signature, "d-cap") && !strings.Contains(v.Signature, "probe-alias") {
+			return true
+		}
+	}
+	return false
 }
 
 func entryClass(e int) string {
